@@ -821,11 +821,26 @@ def _unify_var(
     """Helper function for unification of type or const variables."""
     if var in subst:
         return unify(subst[var], t, subst)
-    if isinstance(t, ExistentialTypeVar) and t in subst:
+    if isinstance(t, ExistentialVar) and t in subst:
         return unify(var, subst[t], subst)
-    if var in t.unsolved_vars:
+    if _occurs(var, t, subst):
         return None
     return {var: t, **subst}
+
+
+def _occurs(var: ExistentialVar, t: Type | Const, subst: "Subst") -> bool:
+    """Checks if a variable occurs in a type or const after applying the (triangular)
+    substitution."""
+    seen: set[ExistentialVar] = set()
+    todo = list(t.unsolved_vars)
+    while todo:
+        v = todo.pop()
+        if v == var:
+            return True
+        if v in subst and v not in seen:
+            seen.add(v)
+            todo.extend(subst[v].unsolved_vars)
+    return False
 
 
 def _unify_args(
